@@ -1008,7 +1008,34 @@ fn model_identity(b: &Binding) -> String {
     }
 }
 
+static CURRENT_OP: std::sync::atomic::AtomicUsize = std::sync::atomic::AtomicUsize::new(0);
+static LAST_PANIC: Mutex<String> = Mutex::new(String::new());
+
+/// A panic that escapes a registry operation or a search is the library failing the
+/// operation (a violation, located by the op in flight); a panic raised from the
+/// simulator's own source is harness trouble (exit 2).
 fn run_history(ops: &[Op], stats: &mut Stats, verbose: bool) -> RunOut {
+    match catch_unwind(AssertUnwindSafe(|| run_history_inner(ops, stats, verbose))) {
+        Ok(o) => o,
+        Err(_) => {
+            let at = LAST_PANIC.lock().map(|s| s.clone()).unwrap_or_default();
+            if at.contains("regsim/src") || at.contains("simcore/src") || at.is_empty() {
+                die(&format!("simulator panicked at {}", at));
+            }
+            let i = CURRENT_OP.load(std::sync::atomic::Ordering::SeqCst);
+            let mut out = RunOut::default();
+            out.nontrivial = true;
+            out.viol.push(Viol {
+                invariant: "no-panic",
+                op_index: i,
+                detail: format!("the library panicked ({}) during op #{} ({})", at, i, ops.get(i).map(|o| o.kind()).unwrap_or("?")),
+            });
+            out
+        }
+    }
+}
+
+fn run_history_inner(ops: &[Op], stats: &mut Stats, verbose: bool) -> RunOut {
     let mut out = RunOut::default();
     let log: Log = Arc::new(Mutex::new(Vec::new()));
     let mut rts: Vec<Runtime> = (0..N_RT).map(|_| Runtime::new()).collect();
@@ -1042,6 +1069,7 @@ fn run_history(ops: &[Op], stats: &mut Stats, verbose: bool) -> RunOut {
         stats.bump("probe.history_with_more_than_48_names");
     }
     for (i, op) in ops.iter().enumerate() {
+        CURRENT_OP.store(i, std::sync::atomic::Ordering::SeqCst);
         stats.bump(&format!("op.{}", op.kind()));
         let line: String;
         match op {
@@ -1375,7 +1403,11 @@ fn hist_json(seed: u64, index: u64, ops: &[Op]) -> Value {
 }
 
 fn main() {
-    std::panic::set_hook(Box::new(|_| {}));
+    std::panic::set_hook(Box::new(|info| {
+        if let Ok(mut s) = LAST_PANIC.lock() {
+            *s = info.location().map(|l| format!("{}:{}", l.file(), l.line())).unwrap_or_else(|| "unknown location".into());
+        }
+    }));
     let args: Vec<String> = std::env::args().collect();
     match args.get(1).map(|s| s.as_str()).unwrap_or("") {
         "gen" => {
